@@ -30,6 +30,10 @@
 (*       flusher (its own query failed), reconnect's Session.refreshRing() *)
 (*       waits for the flusher itself.  FALSE = reconnect runs in its own  *)
 (*       goroutine.                                                        *)
+(*   Defect_ReconnectWindow  reconnect() looks at `closing` only before it *)
+(*       dials: a connection it installs after controlConn.close() ran is  *)
+(*       never closed.  FALSE = it looks again after installing and closes *)
+(*       the new connection itself.                                        *)
 (*                                                                         *)
 (* What C17 demands: no deadlock; every Close returns; after the working   *)
 (* Close returned every connection is closed, the background goroutines    *)
@@ -47,7 +51,7 @@ CONSTANTS
   WithControl,    \* BOOLEAN: the session has a control connection
   OnlyDebouncer,  \* BOOLEAN: the closers call refreshDebouncer.stop() directly (debouncer in isolation)
   MaxCtlFail,     \* control-connection failures noticed by the refresh flusher's own query
-  Defect_StopHandshake, Defect_HeartbeatStart, Defect_LatePool, Defect_ReconnectInline,
+  Defect_StopHandshake, Defect_HeartbeatStart, Defect_LatePool, Defect_ReconnectInline, Defect_ReconnectWindow,
   Mut             \* "none" or a named mutation (model self-test)
 
 HB == "hb"   \* the heartbeat goroutine as a caller of refreshRing()
@@ -296,16 +300,28 @@ FlSelfAnswered ==
   /\ UNCHANGED <<rdStopped, rdHasBc, rdBc, rdNow, rdTimer, rdQuit, rdDone, flCur, nDebounce>>
   /\ UNCHANGED <<evVars, seVars>>
 
-\* the reconnect goroutine of the repaired HandleError
+\* the reconnect goroutine of the repaired HandleError: the `closing` check, then (a separate step) the
+\* dial and installation of the new control connection followed by refreshRing()
 RcReconnect ==
   /\ rcPc = "reconnect"
   /\ IF ~ReconnectProceeds
-     THEN /\ rcPc' = "done"
-          /\ UNCHANGED <<reqPc, rdHasBc, rdBc, rdNow, ccConnOpen, reconn>>
+     THEN rcPc' = "done" /\ UNCHANGED reconn
+     ELSE rcPc' = "dial" /\ reconn' = TRUE
+  /\ UNCHANGED <<ccState, hbPc, ccConnOpen, nProbeFail, nCtlFail>>
+  /\ UNCHANGED <<rdVars, evVars, seVars>>
+
+RcInstall ==
+  /\ rcPc = "dial"
+  /\ IF ctxCancelled                                   \* the dial / handshake fails
+     THEN /\ rcPc' = "done" /\ reconn' = FALSE
+          /\ UNCHANGED <<ccConnOpen, reqPc, rdHasBc, rdBc, rdNow>>
+     ELSE IF ccState = "closing" /\ ~Defect_ReconnectWindow
+     THEN /\ rcPc' = "done" /\ reconn' = FALSE           \* installed, then closed again by reconnect itself
+          /\ UNCHANGED <<ccConnOpen, reqPc, rdHasBc, rdBc, rdNow>>
      ELSE /\ rcPc' = "wait"
-          /\ reconn' = TRUE
           /\ ccConnOpen' = TRUE
           /\ RefreshNowBy(RC)
+          /\ UNCHANGED reconn
   /\ UNCHANGED <<ccState, hbPc, nProbeFail, nCtlFail>>
   /\ UNCHANGED <<rdStopped, rdTimer, rdQuit, rdDone, flPc, flCur, nDebounce>>
   /\ UNCHANGED <<evVars, seVars>>
@@ -449,7 +465,7 @@ CloseStep(k) ==
 \* the driver's own goroutines (each step eventually happens)
 SysNext ==
   \/ FlSelect \/ FlLock \/ FlRefreshDone \/ FlSelfAnswered
-  \/ RcReconnect \/ RcAnswered
+  \/ RcReconnect \/ RcInstall \/ RcAnswered
   \/ \E e \in EvDeb : EvFlush(e)
   \/ EvCallback
   \/ HbStart \/ HbProbe \/ HbReconnect \/ HbAnswered
@@ -477,7 +493,7 @@ Next == SysNext \/ EnvNext \/ Idle
 \* one weak-fairness condition per goroutine (its steps are mutually exclusive by program counter)
 Fairness ==
   /\ WF_vars(FlSelect \/ FlLock \/ FlRefreshDone \/ FlSelfAnswered)
-  /\ WF_vars(RcReconnect \/ RcAnswered)
+  /\ WF_vars(RcReconnect \/ RcInstall \/ RcAnswered)
   /\ WF_vars((\E e \in EvDeb : EvFlush(e)) \/ EvCallback)
   /\ WF_vars(HbStart \/ HbProbe \/ HbReconnect \/ HbAnswered)
   /\ \A k \in Closers : WF_vars(kpc[k] # "idle" /\ CloseStep(k))
@@ -488,7 +504,7 @@ SpecNoFair == Init /\ [][Next]_vars
 (* ======================= what C17 demands ================================== *)
 TypeOK ==
   /\ flPc \in {"select", "woke", "refreshing", "selfwait", "exited"}
-  /\ rcPc \in {"idle", "reconnect", "wait", "done"}
+  /\ rcPc \in {"idle", "reconnect", "dial", "wait", "done"}
   /\ hbPc \in {"spawned", "select", "probe", "reconnect", "waitrefresh", "exited"}
   /\ reqPc \in [Reqs -> {"idle", "waiting", "answered", "closed"}]
   /\ rdNow \in 0 .. 1 /\ tracked \in 0 .. 1 + MaxAddHost /\ stray \in 0 .. MaxAddHost
